@@ -435,11 +435,11 @@ CHECKS = [
                "non-trivial = differing values on a shared key with a falsy side, or depth>=2 with partial overlap."),
     Check("universe_triples", judge_triple, cases=cases_triples, exhaustive=True,
           rule="all triples of a stratified subset: n-ary intersection = fold of meets, associativity, all permutations."),
-    Check("generated_pairs", judge_pair, strategy=strat_generated, quick=3000, thorough=150000,
+    Check("generated_pairs", judge_pair, strategy=strat_generated, quick=6000, thorough=150000,
           rule="pairs derived from a common ancestor (keys a,b,c; depth<=3; leaves incl. lists, floats) by 0-3 point mutations."),
-    Check("generated_triples", judge_triple, strategy=strat_gen_triples, quick=1000, thorough=40000,
+    Check("generated_triples", judge_triple, strategy=strat_gen_triples, quick=2000, thorough=40000,
           rule="2-4 dicts derived from a common ancestor."),
-    Check("update", judge_update, strategy=strat_update, quick=2500, thorough=100000,
+    Check("update", judge_update, strategy=strat_update, quick=5000, thorough=100000,
           rule="update_recursively (dict and string form), update_nested with key chains of length 0-3, type errors."),
 ]
 
